@@ -482,6 +482,7 @@ fn accessor_case(rng: &mut Rng, ctx: &mut Ctx) {
         }
     }
     // ---- an error status found in another error's source chain keeps its metadata
+    #[cfg(feature = "full")]
     {
         let st = gen_status(rng);
         let mut want = st.clone();
